@@ -51,7 +51,8 @@ func main() {
 	r.Set("transitions", total)
 	r.Set("traces_validated_against_impl", total)
 	r.Set("evaluations", total)
-	r.Set("rule", "input enumeration (depth-1 explicit-state search): every case is materialised through the wire codec into a fresh real object and asked for its sender / verified by the real code; the reference is a plain-Go predicate (identical bytes and chain parameter <=> accepted with the signer's address; range of r,s,v from constants). state = one (transaction bytes, verifying chain parameter, cache state) triple; non-trivial = outcome classes below")
+	r.Set("distinct_nontrivial", int(distinctTx))
+	r.Set("rule", "input enumeration (depth-1 explicit-state search): every case is materialised through the wire codec into a fresh real object and asked for its sender / verified by the real code; the reference is a plain-Go predicate (identical bytes and chain parameter <=> accepted with the signer's address; range of r,s,v from constants). state = one (transaction bytes, verifying chain parameter, cache state) triple; distinct_nontrivial = distinct transactions (wire encodings) materialised; outcome classes per part are listed in the part keys")
 	r.Set("wall_fixture_and_run_s", time.Since(start).Seconds())
 	r.Assume("hardness of secp256k1/ed25519 discrete logs and of keccak collisions; the Bulletproof range proof is an ideal functionality in the crypto stand-in (sound and complete); every other confidential primitive (key derivation, key images, ECDH, pre-MLSAG hash, MLSAG, ring signature) is real mathematics")
 	r.Assume("transactions reach a node as bytes and are decoded into fresh objects; objects are not modified in place through exported fields after their sender was first asked (the repository never does); the repository's own derivation methods Sign/WithSignature ARE enumerated on warm objects")
